@@ -87,7 +87,7 @@ LAMBDA_RENDERINGS = ("lambda-attr", "lambda-class-attr", "lambda-default", "lamb
 def cpython_exec(code: str, name: str = "c02_case") -> dict:
     """Execute generated text (side-effect free by construction). An exception here is a generator bug."""
     typing.clear_overloads()
-    ns: dict = {"__name__": name}
+    ns: dict = {"__name__": name, **S.HELPERS}
     try:
         exec(compile(code, f"<{name}>", "exec", dont_inherit=True), ns)  # noqa: S102  (dont_inherit: this file's own __future__ flags must not leak)
     except Exception as exc:  # noqa: BLE001
@@ -201,7 +201,7 @@ def lambda_fails(where: str, what: str, expr, pyfunc) -> list[Fail]:
     # the expression *text* Griffe reports must denote the same lambda: evaluate it and compare its signature
     text = str(expr)
     try:
-        again = eval(text, {})  # noqa: S307  (generated text: literals only)
+        again = eval(text, dict(S.HELPERS))  # noqa: S307  (generated text: literals and the helper calls of the pool)
         view = S.py_view(inspect.signature(again), annotations=False)
     except Exception as exc:  # noqa: BLE001
         fails.append(Fail("default-expr", f"{where}:text-not-evaluable", f"{what}: Griffe renders the lambda as {text!r}, which does not evaluate: {exc!r}"))
